@@ -2,10 +2,13 @@ SPECIFICATION Spec
 CONSTANTS
   MaxBytes = 3
   Cuts = {"origin", "transit"}
+  MaxNotices = 1
+  NoticeEndsStream = FALSE
   OriginErrorFatal = FALSE
 INVARIANTS
   Prefix
   EOFOnlyAfterAll
+  NoSpontaneousClose
   NoAbort
 PROPERTIES
   Complete
